@@ -4,7 +4,10 @@
 ID="$1"; WT="/tmp/re-$ID"
 git -C /repo worktree remove --force "$WT" >/dev/null 2>&1
 git -C /repo worktree add -q --detach "$WT" HEAD || exit 9
-if ! git -C "$WT" apply "/verif/seeded/$ID/patch.diff" 2>/dev/null; then echo "$ID APPLY-FAILED"; git -C /repo worktree remove --force "$WT"; exit 8; fi
+if ! git -C "$WT" apply "/verif/seeded/$ID/patch.diff" 2>/dev/null; then
+  # context drifted through later repairs of the library: try with fuzz before giving up
+  if ! ( cd "$WT" && patch -p1 -F3 -s --no-backup-if-mismatch < "/verif/seeded/$ID/patch.diff" >/dev/null 2>&1 ); then echo "$ID APPLY-FAILED"; git -C /repo worktree remove --force "$WT"; exit 8; fi
+fi
 CHECKS="${2:-$(python3 -c "import json;print(' '.join(json.load(open('/verif/seeded/$ID/meta.json'))['caught_by'][:1]))")}"
 for P in $CHECKS; do
   ( cd /verif && VERIF_REPO="$WT" VERIF_OUT_TAG="re-$ID" VERIF_JOBS=4 timeout 3000 ./check "$P" quick > "/tmp/re-$ID-$P.log" 2>&1; echo "$ID $P exit=$? $(grep -m1 -o 'clause=[a-zA-Z_:0-9]*' /tmp/re-$ID-$P.log)" )
